@@ -76,6 +76,57 @@ hash_harness!(c11_hash_formula_3men, 1, 8);
 hash_harness!(c11_hash_formula_4men, 2, 8);
 hash_harness!(c11_hash_formula_6men, 4, 8);
 
+/// NOT REGISTERED in any check: symbolic execution did not finish in 48 min (two constructions with 837 draws each
+/// under the unwinding bound of 66 that `new()` needs).  Kept as the sketch of a representation-independent companion
+/// (uses only ZobristTable::new() through the rand model, and hash()):
+/// every feature has its OWN key.  Two tables are built from the same draw sequence except that draw number d
+/// (symbolic) is changed in the second; a feature "uses" draw d iff its single-feature hash differs between the two
+/// tables.  No draw may be used by two different features (a shared key would make positions that differ in exactly
+/// those two features collide under every key set).
+#[derive(Copy, Clone, PartialEq, Eq)]
+struct Feature { kind: u8, c: u8, t: u8, s: u8 }   // kind 0 man (colour c, kind t, square s), 1 castling right (colour c, side t), 2 en-passant square s, 3 white to move
+fn any_feature() -> Feature {
+    let kind = sym::u8(); let c = sym::u8(); let t = sym::u8(); let s = sym::u8();
+    sym::assume(kind < 4 && c < 2 && s < 64 && ((kind == 0 && t < 6) || (kind == 1 && t < 2) || (kind >= 2 && t == 0)));
+    sym::assume(kind == 0 || kind == 2 || s == 0); sym::assume(kind <= 1 || c == 0);
+    Feature { kind, c, t, s }
+}
+fn feature_board(f: Feature) -> Board {
+    let mut pc = [0u64; 6]; let mut col = [0u64; 2];
+    if f.kind == 0 { pc[f.t as usize] = bit(f.s); col[f.c as usize] = bit(f.s); }
+    let r = |c: u8, t: u8| f.kind == 1 && f.c == c && f.t == t;
+    let mut b = Board::default();
+    b.position = crate::board::vh::position_from_raw(pc, col);
+    b.active_color = if f.kind == 3 { Color::White } else { Color::Black };
+    b.castling_ability = Castle::new(r(0, 0), r(0, 1), r(1, 0), r(1, 1));
+    b.en_passant_target = if f.kind == 2 { Some(f.s) } else { None };
+    b
+}
+#[cfg_attr(kani, kani::proof)]
+#[cfg_attr(kani, kani::unwind(66))]
+pub fn c11_own_key_per_feature() {
+    use crate::randf::RF;
+    let (f, g) = (any_feature(), any_feature());
+    sym::assume(f != g);
+    vnote!("features", "f=({},{},{},{}) g=({},{},{},{})", f.kind, f.c, f.t, f.s, g.kind, g.c, g.t, g.s);
+    let d = sym::u16() as usize; let delta = sym::u64();
+    sym::assume(d < crate::randf::MAXDRAWS && delta != 0);
+    unsafe { RF.mode = 1; RF.n = 0; }
+    let z1 = ZobristTable::new();
+    let ndraws = unsafe { RF.n };
+    unsafe { RF.mode = 2; RF.n = 0; RF.d = d; RF.delta = delta; }
+    let z2 = ZobristTable::new();
+    unsafe { RF.mode = 0; }
+    vassert!(ndraws <= crate::randf::MAXDRAWS, "C11: more key draws than the harness records");
+    let (bf, bg) = (feature_board(f), feature_board(g));
+    let f_uses = z1.hash(&bf) != z2.hash(&bf);
+    let g_uses = z1.hash(&bg) != z2.hash(&bg);
+    vassert!(!(f_uses && g_uses), "C11: two different features share a key (positions differing in exactly those two features collide for every key set)");
+    vcover!(f_uses, "the changed draw is feature f's key");
+    vcover!(f.kind == 1 && g.kind == 1 && !f_uses && !g_uses, "two castling rights, unrelated draw");
+    core::mem::forget(z1); core::mem::forget(z2);
+}
+
 // ------------------------------------------------------------------------------------------ C14
 use crate::eval::vh as ev;
 #[cfg(kani)]
